@@ -17,6 +17,7 @@ import (
 	"bytes"
 	"encoding/binary"
 	"fmt"
+	"os"
 	"sort"
 	"testing"
 
@@ -387,6 +388,9 @@ func TestC19bIndexerWrites(t *testing.T) {
 		}
 		want := m.expectedKeys()
 		seen := map[string]bool{}
+		if os.Getenv("C19_SKIP_SCAN") != "" { // sensitivity runs only: shows that the query oracles alone also catch a change
+			keys, want = nil, nil
+		}
 		for _, k := range keys {
 			if why := checkKeyShape(k); why != "" {
 				rt.Fatalf("indexer partition holds key %x: %s", k, why)
